@@ -722,6 +722,8 @@ def expand_password(data, num_bytes):
     global _CALLS
     _CALLS += 1
 """)]),
+    N("c16-mutate-list-returned-by-helper", [(UT, """        candidate_bytes = mask_list_of_ints(top_byte_mask_int, enough_bytes)""", """        enough_bytes[0] = enough_bytes[0] & top_byte_mask_int
+        candidate_bytes = enough_bytes""")], props=["C16", "C11"], note="the helper returns a freshly built list; masking it in place is local"),
     N("c16-local-list-build", [(SP, """        pieces = [g.arbitrary_element(b"").to_bytes(),
                   g.scalar_to_bytes(g.password_to_scalar(b"")),
                   self.params.M.to_bytes(),
